@@ -87,6 +87,18 @@ func setMinBal(k int) {
 	common.CFG.AllBalances.MinValue = curMinBal
 }
 
+// unappliedMinBal is a value the configuration holds between two rebuilds of the index: an edit of
+// CFG.AllBalances.MinValue takes effect only when LoadBalancesFromUtxo applies it, until then the limit the
+// index was built with governs additions and removals alike.
+const unappliedMinBal = 31337
+
+// loadBalances rebuilds the index under curMinBal and then leaves an unapplied edit in the configuration.
+func loadBalances() {
+	common.CFG.AllBalances.MinValue = curMinBal
+	wallet.LoadBalancesFromUtxo()
+	common.CFG.AllBalances.MinValue = unappliedMinBal
+}
+
 // toggleMinBal is used by the random recorder: the index comes back with the other limit.
 func toggleMinBal() {
 	if curMinBal == balLimits[0] {
@@ -246,8 +258,7 @@ func replayOne(w *conc.World, dir string, ln *Line, bal bool) (step int, f *fail
 		common.BlockChain = n.Ch
 		wallet.Disable()
 		curMinBal = minBal
-		common.CFG.AllBalances.MinValue = curMinBal
-		wallet.LoadBalancesFromUtxo()
+		loadBalances()
 	}
 	var steps []Step
 	chk := map[int]bool{}
@@ -278,7 +289,7 @@ func replayOne(w *conc.World, dir string, ln *Line, bal bool) (step int, f *fail
 		case "BalEnable":
 			if bal {
 				setMinBal(st.B) // the limit the model chose for the rebuilt index
-				wallet.LoadBalancesFromUtxo()
+				loadBalances()
 			}
 		case "BalDisable":
 			if bal {
